@@ -413,9 +413,9 @@ pub fn run(ctx: &Ctx) -> i32 {
             tier: ctx.tier_name(),
             seed: ctx.seed,
             exhaustive: true,
-            rule: format!("every fault expression of C08 ({}) x every calling context and every derived-form wrapper ({} wrappers, at top level and inside a procedure) x every assignment of {:?} to the first gaps of the failing form x 0-2 preceding forms (rotating); the whole text is evaluated at once and the reported position is compared with the extents recorded by the renderer; distinct = distinct (context, error kind, verdict pattern)", c08::faults().len(), WRAPPERS.len(), GAPS),
+            rule: format!("every fault expression of C08 ({}) x every calling context and every derived-form wrapper ({} wrappers, at top level and inside a procedure) x every assignment of {:?} to the first gaps of the failing form x 0-2 preceding forms (rotating); the whole text is evaluated at once and the reported position is compared with the extents recorded by the renderer; distinct = distinct (context, error kind, verdict pattern); scale ladders: the failing form on every line / column up to 300 (thorough 700) after empty lines, blanks, code and long comment lines; one form spanning n lines / one line of n operands with the fault at its end", c08::faults().len(), WRAPPERS.len(), GAPS),
             bounds: json!({"cases": total, "layout_gaps": if ctx.thorough() { 4 } else { 3 }}),
-            assumptions: vec!["'at' tolerates the implementation's end-of-token convention: start <= position <= end + 1; scale ladders: the failing form on every line / column up to 300 (thorough 700) after empty lines, blanks, code and long comment lines; one form spanning n lines / one line of n operands with the fault at its end".into()],
+            assumptions: vec!["'at' tolerates the implementation's end-of-token convention: start <= position <= end + 1".into()],
             wall_s: ctx.elapsed(),
             extra: json!({}),
         },
